@@ -4,6 +4,8 @@ mod deltas;
 mod hint;
 mod memory;
 mod outline;
+#[cfg(googlefonts_fontations_verif)]
+pub mod verif_hooks;
 
 #[cfg(feature = "libm")]
 #[allow(unused_imports)]
